@@ -94,6 +94,16 @@ var constructs = []construct{
 	{Name: "kwarg-default-duplicate", Tmpl: "{|a, k: §0, k: §1| a}", Slots: []string{"1", "2"}},
 	{Name: "obj-embed-duplicate", Tmpl: "{a: §0, **§1, **§2}", Slots: []string{"1", "{a: 2}", "{a: 3}"}},
 	{Name: "call-unpack-duplicate", Tmpl: "ff(k: §0, **§1, **§2)", Slots: []string{"1", "{k: 2}", "{k: 3, j: 4}"}},
+	// statement lists: a raise after an earlier yield / defer / plain statement in the same body
+	{Name: "stmt-list", Tmpl: "{|| §0; §1; §2}()", Slots: []string{"1", "2", "3"}},
+	{Name: "stmt-list-after-yield", Tmpl: "{|| yield 5; §0; §1}()", Slots: []string{"1", "2"}},
+	{Name: "iter-body-after-yield", Tmpl: "<{|| yield 5; §0; §1}>.new.next", Slots: []string{"1", "2"}},
+	{Name: "iter-body-before-yield", Tmpl: "<{|| §0; yield §1; §2}>.new.next", Slots: []string{"1", "2", "3"}},
+	{Name: "stmt-list-after-defer", Tmpl: "{|| defer 1; §0; §1}()", Slots: []string{"1", "2"}},
+	{Name: "method-body", Tmpl: "{m: m{§0; §1}}.m", Slots: []string{"1", "2"}},
+	{Name: "iter-chain-body-after-yield", Tmpl: "<{|i| yield i if i < 2; §0; recur(i + 1)}>.new(0).A", Slots: []string{"1"}},
+	{Name: "native-predicate", Tmpl: "[1, 2, 3].select {|v| §0}", Slots: []string{"true"}},
+	{Name: "native-iter-predicate", Tmpl: "(1:4).doWhile {|v| §0}.A", Slots: []string{"true"}},
 	{Name: "arr-nested-call", Tmpl: "[id(§0), id(id(§1))]", Slots: []string{"1", "2"}},
 	{Name: "guarded-return", Tmpl: "return §1 if §0", Slots: []string{"true", "1"}, Stmt: true, Fn: true},
 	{Name: "return", Tmpl: "return §0", Slots: []string{"1"}, Stmt: true, Fn: true},
